@@ -55,6 +55,7 @@ func main() {
 		for _, f := range p.Funcs {
 			if strings.Contains(fname(f), *dump) {
 				f.WriteTo(os.Stdout)
+				fmt.Println("#", debugHelper(f))
 			}
 		}
 		os.Exit(0)
